@@ -437,19 +437,48 @@ class Facts:
     def with_inlining(self):
         """view of the program in which unknown private helpers are inlined into their callers (E0); `.orig` is the original"""
         import copy
-        from .inline import inline_unknown_helpers
-        repl, pairs = inline_unknown_helpers(self)
-        v = copy.copy(self)
+        from .inline import inline_unknown_helpers, desugar_combinators
+        # (1) closure-taking combinators -> the match they abbreviate
+        base = self
+        des = {}
+        for f in self.fns:
+            g = desugar_combinators(self.by_path, f)
+            if g is not None:
+                des[f.path] = g
+        if des:
+            base = copy.copy(self)
+            # a closure all of whose uses were spliced in is analysed where it was used
+            spliced = set().union(*[g.desugared_closures for g in des.values()])
+            still = set()
+            from .inline import _closure_of
+            for f in [des.get(f.path, f) for f in self.fns]:
+                for _, t in f.calls():
+                    if (t.get("callee") or "") in spliced:
+                        continue
+                    for a in t["args"]:
+                        if a["k"] != "const" and not a["place"]["p"]:
+                            c = _closure_of(f.raw, a["place"]["l"])
+                            if c in spliced:
+                                still.add(c)
+            spliced -= still
+            base.fns = [des.get(f.path, f) for f in self.fns if f.path not in spliced]
+            base.by_path = {f.path: f for f in base.fns}
+            base._cg = None
+        base.desugared = sorted(des)
+        # (2) unknown private helpers -> inlined into their callers
+        repl, pairs = inline_unknown_helpers(base)
+        v = copy.copy(base)
+        self_fns = base.fns
         gone = {callee for _, callee in pairs}
         # a helper every call of which was inlined is analysed where it is called from; it stays visible only if something still calls it
         still_called = set()
-        for f in [repl.get(f.path, f) for f in self.fns]:
+        for f in [repl.get(f.path, f) for f in self_fns]:
             for _, t in f.calls():
-                for tg in self.local_targets(t):
+                for tg in base.local_targets(t):
                     still_called.add(tg)
         gone = {g for g in gone if g not in still_called}
         # (closures written inside an inlined helper stay: the inlined body still builds and passes them around)
-        v.fns = [repl.get(f.path, f) for f in self.fns if f.path not in gone]
+        v.fns = [repl.get(f.path, f) for f in self_fns if f.path not in gone]
         v.removed_helpers = sorted(gone)
         v.by_path = {f.path: f for f in v.fns}
         v._cg = None
